@@ -22,9 +22,11 @@ TYPES = [("int", "int", None), ("varchar(20)", "varchar", 20), ("decimal(10,2)",
          ("double precision", "double precision", None), ("character varying(20)", "character varying", 20), ("timestamp", "timestamp", None),
          ("numeric(5)", "numeric", 5), ("decimal(10,2) unsigned", "decimal unsigned", [10, 2]), ("int(11) unsigned", "int unsigned", 11),
          ("float(7,3) unsigned zerofill", "float unsigned zerofill", [7, 3])]
-DEFAULTS = ["0", "7", "1234", "12345678901234567890", "'a'", "''", "'A b C'", "NULL", "TRUE", "now()", "CURRENT_TIMESTAMP", "1.5", "-1", "0.50", "10.25", "'0'"]
-OPTS = ["NN", "NULL", "DEF", "PK", "UQ", "REF"]
-CONTRA = [{"NN", "NULL"}, {"NULL", "PK"}]
+DEFAULTS = ["0", "7", "1234", "12345678901234567890", "'a'", "''", "'A b C'", "NULL", "TRUE", "now()", "CURRENT_TIMESTAMP", "1.5", "-1", "0.50", "10.25", "'0'",
+            # PostgreSQL (pg_dump) casts, incl. a cast to a two-word type
+            "'new'::character varying", "'x'::text", "0::numeric", "'a b'::character varying"]
+OPTS = ["NN", "NULL", "DEF", "PK", "UQ", "REF", "UQK"]  # UQK = the MySQL spelling UNIQUE KEY
+CONTRA = [{"NN", "NULL"}, {"NULL", "PK"}, {"UQ", "UQK"}]
 REFS = ["REFERENCES o(x)", "REFERENCES o (x)", "REFERENCES s9.o(x)", "REFERENCES o(key)", "REFERENCES orders (order)", "REFERENCES o(comment)"]
 
 
@@ -35,7 +37,7 @@ def dval(v):
 def render_opts(opts, default="7", ref=0):
     out = []
     for o in opts:
-        out.append({"NN": "NOT NULL", "NULL": "NULL", "DEF": "DEFAULT " + default, "PK": "PRIMARY KEY", "UQ": "UNIQUE", "REF": REFS[ref]}[o])
+        out.append({"NN": "NOT NULL", "NULL": "NULL", "DEF": "DEFAULT " + default, "PK": "PRIMARY KEY", "UQ": "UNIQUE", "UQK": "UNIQUE KEY", "REF": REFS[ref]}[o])
     return " ".join(out)
 
 
@@ -109,6 +111,9 @@ def gen_cases(tier):
             for sch in (False, True):
                 for lay in (("line", "multi") if n <= 2 else ("line",)):
                     cases.append({"fam": "C", "tabs": list(tabs), "schema": sch, "layout": lay})
+                    if lay == "line" and n >= 2:
+                        # the same tables without ';' terminators, one statement per line, no trailing newline
+                        cases.append({"fam": "C", "tabs": list(tabs), "schema": sch, "layout": "line", "nosemi": True})
                     if lay == "line":
                         # the same script behind a comment line that holds a lone apostrophe (quote-aware pre-processing must not lose its bearings)
                         cases.append({"fam": "C", "tabs": list(tabs), "schema": sch, "layout": "glued", "apos": True})
@@ -159,6 +164,8 @@ ATTRS = ("name", "type", "size", "nullable", "default")
 
 def _ddl(case):
     ddl, exps = build(case)
+    if case.get("nosemi"):
+        ddl = "\n".join(l.rstrip().rstrip(";") for l in ddl.split("\n") if l.strip())
     return ("-- the customer's data\n" + ddl if case.get("apos") else ddl), exps
 
 
